@@ -58,3 +58,22 @@ Print Assumptions C10_transport.
 Print Assumptions C10_readback.
 Print Assumptions C10_reencode.
 Print Assumptions C10_outcome_bytes_inj.
+
+(* ------------------------------------------------------------------ *)
+(* through the READER (coq/ReceiptBytes.v, the byte-level model of receipt.NewReceipt): a receipt that
+   verifies, filed under the link of its bytes, is read back as a receipt with the same signature that
+   verifies over the outcome that was read *)
+From Ucanto Require Import MessageBytes ReceiptBytes.
+Theorem C10_read_back_verifies : forall mh_digest (valid : N -> bstr -> bstr -> bool) k s root r,
+  wf_ipld (receipt_ipld r) = true -> in_budget (receipt_ipld r) = true -> rcpt_typed_ok r = true ->
+  tbl_get s root = Some (receipt_bytes r) -> root_integrity mh_digest root (receipt_bytes r) = true ->
+  verify_receipt valid k r = true ->
+  exists r', read_receipt mh_digest s root = ROk r' /\ verify_receipt valid k r' = true /\ r_sig r' = r_sig r.
+Proof. exact read_back_verifies. Qed.
+Print Assumptions C10_read_back_verifies.
+
+(* the typed reader (bindnode's acceptance of the Receipt schema) on the encoder's output is the reader above *)
+Theorem C10_typed_reader_roundtrip : forall r, rcpt_typed_ok r = true ->
+  receipt_typed (canon (receipt_ipld r)) = TOk (tout_of (canon_outcome (r_ocm r)), r_sig r).
+Proof. exact receipt_typed_canon. Qed.
+Print Assumptions C10_typed_reader_roundtrip.
